@@ -94,10 +94,33 @@ def _call(job):
     if trace:
         with open(trace, "a") as fh:
             fh.write("start %d %s\n" % (os.getpid(), name))
+    # wall-clock budget per obligation (a changed tree can make a symbolic run explode): exceeding it is `undecided`, never a hang of the check
+    budget = int(os.environ.get("VERIF_OBLIGATION_TIMEOUT", "0") or 0) or (3600 if os.environ.get("VERIF_TIER") == "thorough" else 1200)
+    import signal
+
+    class _Timeout(BaseException):
+        pass
+
+    def _on_alarm(signum, frame):
+        raise _Timeout()
+
+    armed = False
     try:
-        r = func(*args)
+        signal.signal(signal.SIGALRM, _on_alarm)
+        signal.alarm(budget)
+        armed = True
+    except (ValueError, AttributeError):      # not in the main thread of the process
+        pass
+    try:
+        try:
+            r = func(*args)
+        finally:
+            if armed:
+                signal.alarm(0)
         if r is None:
             r = {"status": "error", "detail": "obligation returned nothing"}
+    except _Timeout:
+        r = undecided("obligation not decided within its wall-clock budget of %d s" % budget)
     except Exception as e:  # noqa
         from vlib.sym import Undecided
 
